@@ -16,10 +16,13 @@ import (
 	"fmt"
 	"math"
 	"math/big"
+	"os"
+	"os/exec"
 	"sort"
 	"strconv"
 	"strings"
 	"time"
+	_ "time/tzdata" // zones for the host-zone child processes even where the host has no zoneinfo
 
 	"rare/cmd/helpers"
 	"rare/pkg/aggregation"
@@ -45,6 +48,9 @@ type c13In struct {
 	Via   string   `json:"via,omitempty"` // Sort | SortBy | counter | subkey | table-rows | table-cols | groups
 	Hist  []c13Ev  `json:"history,omitempty"` // kind hist: samples interleaved with reads (rendered frames)
 	Big   *c13Big  `json:"big,omitempty"`     // kind top
+	// run the implementation in a child process whose local time zone (TZ) is this one; the order
+	// must be what it is under UTC (a function of the data alone)
+	HostTz string `json:"host_tz,omitempty"`
 	// kind groups (rare reduce): Keys[i] is the text Groups orders group i by (oracles), GParts its columns
 	GParts   [][]string `json:"group_columns_hex,omitempty"`
 	SortKind int        `json:"sort_kind,omitempty"`       // 0: no --sort expression, 1: {sum}, 2: "{1} {0}"
@@ -686,6 +692,92 @@ func c13TableCase(in c13In) Case {
 		Nontrivial: ntrim > 0, Tags: tags}
 }
 
+// ---------------------------------------------------------------- host time zone
+// Go reads TZ once at start: the harness re-executes itself as a child process with TZ set and the
+// child runs the implementation on the case (stdin: the input as JSON; stdout: zone name + output)
+type c13HostResp struct {
+	Local string `json:"local"`
+	Out   c13Out `json:"out"`
+}
+
+func c13HostChildMain() {
+	var in c13In
+	if err := json.NewDecoder(os.Stdin).Decode(&in); err != nil {
+		fmt.Fprintln(os.Stderr, err)
+		os.Exit(2)
+	}
+	in.HostTz = ""
+	json.NewEncoder(os.Stdout).Encode(c13HostResp{Local: time.Local.String(), Out: c13Run(in)})
+}
+
+func c13HostRun(in c13In) c13Out {
+	exe, err := os.Executable()
+	if err != nil {
+		return c13Out{Panic: "host child: " + err.Error()}
+	}
+	cmd := exec.Command(exe, "c13-host-child")
+	for _, e := range os.Environ() {
+		if !strings.HasPrefix(e, "TZ=") {
+			cmd.Env = append(cmd.Env, e)
+		}
+	}
+	cmd.Env = append(cmd.Env, "TZ="+in.HostTz)
+	b, _ := json.Marshal(in)
+	cmd.Stdin = strings.NewReader(string(b))
+	cmd.Stderr = os.Stderr
+	raw, err := cmd.Output()
+	if err != nil {
+		return c13Out{Panic: "host child: " + err.Error()}
+	}
+	var resp c13HostResp
+	if err := json.Unmarshal(raw, &resp); err != nil {
+		return c13Out{Panic: "host child: " + err.Error()}
+	}
+	if resp.Local != in.HostTz {
+		return c13Out{Panic: fmt.Sprintf("host child runs in local zone %q, wanted %q", resp.Local, in.HostTz)}
+	}
+	return resp.Out
+}
+
+// zone-less date keys around the DST changes of the host zones: the skipped spring-forward hour
+// (does not exist as local time), the repeated fall-back hour, and the hours next to them
+var hostTzDays = map[string][][2]string{ // zone -> (spring-forward day, fall-back day)
+	"America/New_York": {{"2022-03-13", "2022-11-06"}, {"2021-03-14", "2021-11-07"}},
+	"Europe/Berlin":    {{"2022-03-27", "2022-10-30"}, {"2023-03-26", "2023-10-29"}},
+}
+var hostTzTimes = []string{"00:30", "01:10", "01:45", "01:59", "02:00", "02:15", "02:30", "02:59", "03:00", "03:10", "03:45", "04:20", "12:00", "23:30"}
+
+func genHostTzNames(r *Rng, zone string, n int) []string {
+	days := Pick(r, hostTzDays[zone])
+	day := days[r.Intn(2)]
+	style := r.Intn(4)
+	seen := map[string]bool{}
+	var out []string
+	for tries := 0; len(out) < n && tries < 60; tries++ {
+		t := Pick(r, hostTzTimes)
+		d := day
+		if r.Chance(1, 8) {
+			d = days[r.Intn(2)] // a key of the other change day
+		}
+		var s string
+		switch style {
+		case 0:
+			s = d + " " + t + ":00"
+		case 1:
+			s = d + " " + t
+		case 2:
+			s = d + "T" + t + ":" + fmt.Sprintf("%02d", r.Intn(60))
+		default:
+			s = d[5:7] + "/" + d[8:10] + "/" + d[0:4] + " " + t + ":00"
+		}
+		if !seen[s] {
+			seen[s] = true
+			out = append(out, s)
+		}
+	}
+	return out
+}
+
 func groupParts(in c13In, i int) []string {
 	ps := make([]string, len(in.GParts[i]))
 	for j, h := range in.GParts[i] {
@@ -1032,7 +1124,12 @@ func c13Case(in c13In) Case {
 	if in.Kind == "groups" {
 		return c13GroupsCase(in)
 	}
-	out := c13Run(in)
+	var out c13Out
+	if in.HostTz != "" {
+		out = c13HostRun(in)
+	} else {
+		out = c13Run(in)
+	}
 	terms, infos, layouts, instants, _ := c13Oracles(in.Keys)
 	names := make([]string, len(in.Keys))
 	for i, k := range in.Keys {
@@ -1094,6 +1191,9 @@ func c13Case(in c13In) Case {
 		lname = lname[:i]
 	}
 	tags := []string{"kind=" + in.Kind}
+	if in.HostTz != "" {
+		tags = append(tags, "host-tz:"+in.HostTz)
+	}
 	if in.Kind == "sort" || in.Kind == "hist" {
 		tags = append(tags, "via="+in.Via)
 	}
@@ -1340,6 +1440,8 @@ func genNames(r *Rng, recipe string, n int) []string {
 			} else {
 				add(randNumber(r))
 			}
+		case "near-equal": // unequal numbers a hair apart (1e-6 .. 1e-15), at several scales, in several spellings
+			return genNearEqual(r, n)
 		case "numbers-distinct": // pairwise distinct values: plain integers and halves
 			add(strconv.FormatFloat(float64(r.Range(-40, 400))/2, 'f', -1, 64))
 		case "text":
@@ -1439,6 +1541,61 @@ func genNames(r *Rng, recipe string, n int) []string {
 				add(Pick(r, poolNearCal))
 			}
 		}
+	}
+	return out
+}
+
+var nearEqualFixed = [][]string{
+	{"10", "9.9999999999"}, {"100", "99.9999999999"}, {"1e-10", "2e-11"}, {"99.9999999995", "+100.0000000008", "100"},
+	{"1", "0.9999999999", "1.0000000001", "+1.00000000005"}, {"1e15", "999999999999999.9", "1000000000000000.1"},
+}
+
+func genNearEqual(r *Rng, n int) []string {
+	seen := map[string]bool{}
+	var out []string
+	add := func(s string) {
+		if !seen[s] && len(out) < n {
+			seen[s] = true
+			out = append(out, s)
+		}
+	}
+	if r.Chance(1, 3) {
+		for _, s := range Pick(r, nearEqualFixed) {
+			add(s)
+		}
+	}
+	base := Pick(r, []float64{1, 10, 100, 1e-10, 1e15, 0, -10, 7})
+	for tries := 0; len(out) < n && tries < 80; tries++ {
+		delta := Pick(r, []float64{1e-6, 1e-9, 3e-10, 1e-10, 1e-12, 1e-15})
+		if base == 1e-10 {
+			delta *= 1e-10
+		}
+		if base == 1e15 {
+			delta = Pick(r, []float64{0.125, 0.25, 1, 1e-3})
+		}
+		v := base + float64(r.Range(-3, 3))*delta
+		// decimal text of base + k*delta written out, not the shortest float form: more digits, other spellings
+		var s string
+		switch r.Intn(6) {
+		case 0:
+			s = strconv.FormatFloat(v, 'f', -1, 64)
+		case 1:
+			s = strconv.FormatFloat(v, 'e', -1, 64)
+		case 2:
+			s = "+" + strconv.FormatFloat(v, 'f', -1, 64)
+		case 3:
+			s = strconv.FormatFloat(v, 'E', 15, 64)
+		case 4:
+			s = strconv.FormatFloat(v, 'f', 13, 64)
+		default:
+			s = strconv.FormatFloat(v, 'f', -1, 64)
+			if !strings.Contains(s, ".") {
+				s += ".0"
+			} else {
+				s += "0"
+			}
+		}
+		add(s)
 	}
 	return out
 }
@@ -1560,6 +1717,7 @@ type recipe struct {
 // (sort name, key recipe): mostly inside the state-free domains, plus the mixtures of the known findings
 var recipes = []recipe{
 	{"text", "any"}, {"text", "num+text"}, {"", "text"},
+	{"numeric", "near-equal"}, {"numeric", "near-equal"}, {"contextual", "near-equal"}, {"date", "near-equal"},
 	{"numeric", "numbers-distinct"}, {"numeric", "puretext"}, {"numeric", "numbers"}, {"numeric", "num+text"}, {"numeric", "any"},
 	{"contextual", "weekdays"}, {"contextual", "months"}, {"context", "weekdays"}, {"contextual", "puretext"},
 	{"contextual", "numbers-distinct"}, {"contextual", "cal-mixed"}, {"contextual", "cal-ties"}, {"contextual", "any"},
@@ -1679,6 +1837,47 @@ func c13Gen(r *Rng, n int, tier string) []Case {
 			// handing such key sets to Sort/SortBy with explicit arrangements only
 			in.Via = "SortBy"
 			cs = c13Case(in)
+		}
+		cases = append(cases, cs)
+	}
+	// --sort date under another host time zone (child process): zone-less keys around DST changes
+	nHost := 14
+	if tier == "thorough" {
+		nHost = 80
+	}
+	for i := 0; i < nHost; i++ {
+		zone := []string{"America/New_York", "Europe/Berlin"}[i%2]
+		in := c13In{Mode: hex.EncodeToString([]byte(genSpecFor(r, "date"))), HostTz: zone}
+		in.Keys = mkKeys(r, genHostTzNames(r, zone, r.Range(3, 7)))
+		k := len(in.Keys)
+		if k < 2 {
+			continue
+		}
+		switch r.Intn(5) {
+		case 0:
+			in.Kind = "ax"
+		case 1:
+			in.Kind = "seq"
+			for j := 0; j < 12; j++ {
+				a, b := r.Intn(k), r.Intn(k)
+				if a != b {
+					in.Pairs = append(in.Pairs, [2]int{a, b}, [2]int{b, a})
+				}
+			}
+		default:
+			in.Kind = "sort"
+			in.Via = Pick(r, []string{"Sort", "SortBy", "counter", "table-rows"})
+			if k <= 5 {
+				in.Perms = allPerms(k)
+			} else {
+				for j := 0; j < 30; j++ {
+					in.Perms = append(in.Perms, randPerm(r, k))
+				}
+			}
+		}
+		cs := c13Case(in)
+		if hasKF(cs.Tags) {
+			continue
 		}
 		cases = append(cases, cs)
 	}
@@ -1866,6 +2065,11 @@ func fixedCases() []c13In {
 		mk("sort", "text:desc", "table-rows", "a", "b", "c", "d"),                 //
 		mk("ax", "contextual", "", "Jan", "FEB", "march", "Apr", "may", "JUNE", "jul", "aug", "sept", "oct", "nov", "dec"),
 		mk("ax", "contextual", "", "sat", "fri", "thu", "wed", "tue", "mon", "sun"),
+		mk("sort", "numeric", "Sort", "99.9999999995", "+100.0000000008", "100"), // near-equal values: exact comparison, no tolerance
+		mk("ax", "numeric", "", "10", "9.9999999999", "100", "99.9999999999", "1e-10", "2e-11"),
+		mk("sort", "contextual:desc", "SortBy", "10", "9.9999999999", "1e-10", "2e-11"),
+		hostTz("America/New_York", mk("sort", "date", "Sort", "2022-03-13 01:45:00", "2022-03-13 02:15:00", "2022-03-13 02:30:00", "2022-03-13 03:10:00")),
+		hostTz("Europe/Berlin", mk("sort", "date:desc", "SortBy", "2022-03-27 01:45", "2022-03-27 02:15", "2022-03-27 02:30", "2022-03-27 03:10", "2022-10-30 02:30")),
 		mkGroups("contextual:desc", 0, [][]string{{"web", "200"}, {"web", "404"}, {"web", "500"}, {"db", "200"}, {"db", "500"}}),
 		mkGroups("contextual", 0, [][]string{{"web", "200"}, {"web", "404"}, {"web", "500"}, {"db", "200"}, {"db", "500"}}),
 		mkGroups("contextual:desc", 2, [][]string{{"10", "9"}, {"10", "10"}, {"9", "10"}, {"9", "9"}}),
@@ -1883,6 +2087,8 @@ func fixedCases() []c13In {
 		mkHist("value", "subkey", []string{"a", "b", "c"}, [][2]int64{{0, 5}, {1, 3}, {2, 1}, {-1, 0}, {2, 9}, {1, 4}}),
 	}
 }
+
+func hostTz(zone string, in c13In) c13In { in.HostTz = zone; return in }
 
 func mkGroups(mode string, kind int, groups [][]string) c13In {
 	in := c13In{Kind: "groups", Mode: hex.EncodeToString([]byte(mode)), SortKind: kind}
@@ -1931,6 +2137,10 @@ func mkHist(mode, via string, names []string, evs [][2]int64) c13In {
 }
 
 func main() {
+	if len(os.Args) > 1 && os.Args[1] == "c13-host-child" {
+		c13HostChildMain()
+		return
+	}
 	Main(&Prop{
 		Name:   "C13",
 		Header: "From Coq Require Import List ZArith String.\nFrom RareV Require Import Corr.C13Case.\nImport ListNotations.\nOpen Scope Z_scope. Open Scope string_scope.\n",
@@ -1938,6 +2148,8 @@ func main() {
 			"key recipes: numbers in several spellings (1, 1.0, 01, 1e0, -0, hex float, subnormal, > 2^53, out of range), nan/inf, text, number-like text (5x, 1,5), weekday/month names and abbreviations in random case, near-misses (sund, FR\\u0130), dates in 15 layouts incl. years 0001..9999 (instants outside the int64-nanosecond range), mixtures; values: distinct / many ties / all equal / int64 extremes. " +
 			"kinds: ax = every ordered pair on a fresh BuildSorter instance (decision matrix, compared off the diagonal; axioms on all triples in Coq); seq = 3..40 comparisons of distinct keys incl. swapped and repeated pairs on one instance; " +
 			"hist = a collector (MatchCounter.ItemsSortedBy, SubKeyCounter.ItemsSorted, TableAggregator.OrderedRows/OrderedColumns, AccumulatingGroup.Groups with SetSort({sum}) as in rare reduce) fed 5..30 samples interleaved with reads of the sorted view (rendered frames) on one sorter instance; the final read is compared with the model's function of the final totals alone; " +
+			"host-tz = 14 cases per run of --sort date (ax / seq / sort) on zone-less date keys inside and around the skipped and the repeated DST hour of America/New_York and Europe/Berlin, with the implementation run in a child process of the harness whose TZ is that zone (time/tzdata embedded): the order must be the model's, i.e. the same as under UTC; " +
+			"near-equal = numeric key families 1e-6..1e-15 apart around 1, 10, 100, 1e-10, 1e15, 0, -10 in several spellings (+x, x.0, exponent forms, fixed digits), compared exactly by the model; " +
 			"groups = rare reduce at the library level: an AccumulatingGroup with 1..3 group columns (values from small sets, so that groups share their first column; numbers and weekday names among them), no --sort expression / --sort {sum} / --sort \"{1} {0}\", plain or reversed text / numeric / contextual NameSorter, the same samples in 3 arrival orders with reads in between and a repeated final read; " +
 			"table = a TableAggregator with 2..6 rows and columns fed 6..36 cell samples interleaved with frames (OrderedRows + OrderedColumns on persistent sorters) and Trim calls as the commands make them (spark: keep the last n columns in the column sorter's order, every frame; value predicates lo <= val <= hi; column sets), more samples after trims; the final OrderedRows or OrderedColumns (mostly value, also text / numeric / the rest, any modifier) and the set of rows / columns left are compared with the model's function of the final cells alone; " +
 			"top = 9 cases per run with 2,050..6,000 keys built from a counter (text k<i> or numbers 37*i mod 10007) and values (i*a+b) mod m (many ties), 2-3 arrival orders each: MatchCounter.ItemsSortedBy with limits 1, 2, 5, 50, groups/4-1, groups/4, groups, and SubKeyCounter.ItemsSorted / TableAggregator.OrderedRows at full length, any sort mode and modifier; the model answers firstn limit of its full (merge) sort and the boolean form checks the rows in a linear pass; " +
